@@ -544,6 +544,13 @@ func (st *State) loopAt(fr *Frame, b *ssa.BasicBlock) *loopInfo {
 	return nil
 }
 
+func (st *State) loopsFor(fr *Frame) []*loopInfo {
+	if fr.isUnit {
+		return st.u.loops
+	}
+	return st.e.loopsOf(fr.fn)
+}
+
 var loopCache = map[*ssa.Function][]*loopInfo{}
 
 func (e *Engine) loopsOf(fn *ssa.Function) []*loopInfo {
@@ -557,6 +564,28 @@ func (e *Engine) loopsOf(fn *ssa.Function) []*loopInfo {
 
 func (st *State) loopEnv(fr *Frame, li *loopInfo) *Env {
 	env := st.unitEnv(fr, nil)
+	// phis of every open loop of this function are visible as name<ordinal> (idx3, dest2, ...)
+	for _, ol := range st.loopsFor(fr) {
+		if !st.opened[ol.head] && ol != li {
+			continue
+		}
+		for _, in := range ol.head.Instrs {
+			p, ok := in.(*ssa.Phi)
+			if !ok {
+				break
+			}
+			name := p.Comment
+			if name == "" {
+				continue
+			}
+			if name == "rangeindex" {
+				name = "idx"
+			}
+			if v, ok := fr.vals[p]; ok {
+				env.vars[fmt.Sprintf("%s%d", name, ol.ordinal)] = envVar{v, p.Type()}
+			}
+		}
+	}
 	for _, in := range li.head.Instrs {
 		p, ok := in.(*ssa.Phi)
 		if !ok {
